@@ -185,10 +185,11 @@ func (p *FunctionBuilder) CreateFunction(m *bmodel.MethodEntry) (*gmodel.Functio
 }
 
 // createVar creates a gmodel.Var from a types.Var.
-// If the types.Var doesn't have a name, defName is used instead.
+// If the types.Var doesn't have a name, or the blank name "_" that cannot be referred to,
+// defName is used instead.
 func (p *FunctionBuilder) createVar(v *types.Var, defName string) gmodel.Var {
 	name := v.Name()
-	if name == "" {
+	if name == "" || name == "_" {
 		name = defName
 	}
 
